@@ -480,6 +480,11 @@ func GenFoldedDefaultsWorkload(r *Rand) *Workload {
 	for i, k := range Shuffled(r, []string{"folded.Panel.title", "folded.panel.TITLE"}) {
 		fmt.Fprintf(&b, "        %s: 't%d'\n", k, i)
 	}
+	// same package and object spelling, only the field part differs in case: the order of
+	// application rests on the last component of the key alone
+	for i, k := range Shuffled(r, []string{"folded.Panel.unit", "folded.Panel.UNIT", "folded.Panel.Unit", "folded.Panel.uNit"}) {
+		fmt.Fprintf(&b, "        %s: 'u%d'\n", k, i)
+	}
 	b.WriteString("  - hint_object:\n      object: folded.Panel\n      hints:\n        first_hint: a\n        second_hint: b\n        third_hint: c\n")
 	w.Files["cfg/folded_passes.yaml"] = b.String()
 	w.Languages = GenLanguages(r, 1, 3)
